@@ -364,6 +364,10 @@ def stepCache (st : CacheSt) (tl : Tally) (act : String) (ans : String) : CacheS
         let tl := if vetoed && findItem snap k != before then
             tl.monitorAt "C09" s!"the validator vetoed the write of {v} to key {k} but the resident entry changed"
           else tl
+        -- … and so does its filing in the expiry index (else it is reclaimed at another time, or never)
+        let tl := if vetoed && (g.prev.map (·.buckets)) != some snap.buckets then
+            tl.monitorAt "C09" s!"the validator vetoed the write of {v} to key {k} but the expiry index changed: the entry's TTL bookkeeping did not stay as it was"
+          else tl
         -- C02: an unvetoed insert of a resident (unexpired or not) key replaces the value at once
         let tl := match before with
           | some (_, bcf, _, _, _) =>
@@ -371,7 +375,7 @@ def stepCache (st : CacheSt) (tl : Tally) (act : String) (ans : String) : CacheS
               match findItem snap k with
               | some (_, _, nv, nd, ncr) =>
                 let tl := if nv == v then tl else tl.monitorAt "C02" s!"insert of resident key {k} did not replace the value immediately (value {nv}, wrote {v})"
-                if nd == ttl && ncr == now then tl else tl.monitorAt "C03" s!"re-insert of key {k} did not replace its deadline: ttl={nd} created={ncr}, expected ttl={ttl} created={now}"
+                if nd == ttl && (ncr == now || ttl == 0) then tl else tl.monitorAt "C03" s!"re-insert of key {k} did not replace its deadline: ttl={nd} created={ncr}, expected ttl={ttl} created={now}"
               | none => tl.monitorAt "C02" s!"insert of resident key {k} removed it"
             else tl
           | none => tl
@@ -681,19 +685,22 @@ def stepCache (st : CacheSt) (tl : Tally) (act : String) (ans : String) : CacheS
                     | none => tl
                   | none => tl.monitorAt "C05" s!"on_evict for key {k} which was not resident"
                 | _ => tl) tl
-              -- completeness: nothing due is left behind
+              -- completeness (the property's bound: one bucket width after expiry): an entry whose TTL
+              -- elapsed at least one second before this cleanup must be gone, through one on_evict;
+              -- and the cleanup removes nothing that has not expired
               let tl := p.items.foldl (fun tl it =>
                 let (k, _, v, d, cr) := it
-                if d != 0 && (cr + d) / nsPerSec + 1 ≤ now / nsPerSec then
-                  let tl := if (findItem snap k).isSome then
-                      tl.monitorAt "C05" s!"entry {k} expired at {cr + d} (bucket {(cr + d) / nsPerSec + 1}) is still resident after the cleanup at {now} (cleanup bucket {now / nsPerSec})"
+                let gone := (findItem snap k).isNone
+                if d != 0 && cr + d + nsPerSec ≤ now then
+                  let tl := if !gone then
+                      tl.monitorAt "C05" s!"entry {k} expired at {cr + d} is still resident after the cleanup at {now}, more than one bucket width (1 s) later"
                     else tl
-                  if (findItem snap k).isNone && !(cbsImpl.any fun cb => cb.val == v) then
+                  if gone && !(cbsImpl.any fun cb => cb.val == v) then
                     tl.monitorAt "C05" s!"entry {k} was swept without an on_evict callback"
                   else tl
-                else
-                  -- and nothing else disappears
-                  if (findItem snap k).isNone then tl.monitorAt "C05" s!"the sweep removed entry {k} that was not due (ttl={d} created={cr} now={now})" else tl) tl
+                else if gone && !(d != 0 && cr + d ≤ now) then
+                  tl.monitorAt "C05" s!"the cleanup removed entry {k} that has not expired (ttl={d} created={cr} now={now})"
+                else tl) tl
               tl
             | none => tl
           finishStep st tl c' "p.tick" cbsM cbsImpl snap g
